@@ -180,8 +180,7 @@ Qed.
 
 (* the closing np.unique: labels exactly 1..k, same partition as the last level *)
 Lemma sg_ret_nth n cil x : (x < n)%nat -> nth x (sg_ret n cil) O = relabel n (fun y => Z.of_nat (nth y cil O)) x.
-Proof. intros Hx. unfold sg_ret, out_lab. rewrite (nth_map_seq _ O n x) || idtac.
-  unfold to_list. rewrite map_map. rewrite (nth_map_seq (fun y => S (relabel0 n (fun y0 => Z.of_nat (nth y0 cil O)) y)) O n x Hx). reflexivity.
+Proof. intros Hx. unfold sg_ret, out_lab, to_list. rewrite map_map. rewrite (nth_map_seq (fun y => S (relabel0 n (fun y0 => Z.of_nat (nth y0 cil O)) y)) O n x Hx). reflexivity.
 Qed.
 
 Lemma sg_ret_exact n cil : exists k, labels_exact n (sg_ret n cil) k.
@@ -400,4 +399,22 @@ Proof.
   unfold run_finetune_sign. cbv zeta.
   destruct (sign_init _ _ _) as [st0 [kn0 kn1]]. destruct (replay _ _ st0 moves) as [tr st].
   unfold ret_ci. cbn [fst snd]. apply out_lab_exact.
+Qed.
+
+(* non-vacuity: 4 nodes, positive edges 0-1 (2), 0-2 (1), 2-3 (3), negative edge 1-3; level 1 builds {0,1} and {2,3},
+   level 2 makes no move; qtype 'sta' *)
+Definition ex_sign_rows : list (list Q) := [[0; 2; 1; 0]; [2; 0; 0; -(1)]; [1; 0; 0; 3]; [0; -(1); 3; 0]].
+Definition ex_sign_lv : list (list (nat * nat)) := [[(0, 1); (2, 3)]; []]%nat.
+
+Example louvain_sign_run_nonvacuous :
+  sym_rows ex_sign_rows /\ ex_sign_lv <> [] /\
+  (let n := length ex_sign_rows in let p := sign_params n (rowsW ex_sign_rows) (qtype_of 0) in
+   louvain_sign_good 1 (ss0 p) (ss1 p) (sd0 p) (sd1 p) n (sW0 p) (sW1 p) ex_sign_lv) /\
+  ret_ci (run_louvain_sign ex_sign_rows 1 0 ex_sign_lv) = [1; 1; 2; 2]%nat /\
+  ret_q (run_louvain_sign ex_sign_rows 1 0 ex_sign_lv) = ret_qdef (run_louvain_sign ex_sign_rows 1 0 ex_sign_lv) /\
+  ret_qstart (run_louvain_sign ex_sign_rows 1 0 ex_sign_lv) < ret_q (run_louvain_sign ex_sign_rows 1 0 ex_sign_lv).
+Proof.
+  split; [|split; [discriminate|split; [|split; [vm_compute; reflexivity|split; vm_compute; reflexivity]]]].
+  - intros i j Hi Hj. do 4 (destruct i as [|i]; [do 4 (destruct j as [|j]; [reflexivity|]); exfalso; cbn in Hj; lia|]). exfalso; cbn in Hi; lia.
+  - cbv zeta. cbn [louvain_sign_good ex_sign_lv]. split; [good_run_tac|]. split; [good_run_tac|exact I].
 Qed.
